@@ -40,7 +40,7 @@ class ModulePrefixer:
         if prefix is None:
             return module_name
 
-        return f"{prefix}.{module_name}"
+        return prefix + "." + module_name
 
 
 class DiagramRule(FileRule, BaseModuleSpecifier, RuleApplier):
